@@ -752,6 +752,34 @@ struct MatchesArgs {
     pat: syn::Pat,
     guard: Option<syn::Expr>,
 }
+/// winnow's `dispatch!{ parser; pat (if guard)? => parser, .. }`
+struct DispatchArgs {
+    scrut: syn::Expr,
+    arms: Vec<(syn::Pat, Option<syn::Expr>, syn::Expr)>,
+}
+impl syn::parse::Parse for DispatchArgs {
+    fn parse(input: syn::parse::ParseStream) -> syn::Result<Self> {
+        let scrut: syn::Expr = input.parse()?;
+        input.parse::<syn::Token![;]>()?;
+        let mut arms = vec![];
+        while !input.is_empty() {
+            let pat = syn::Pat::parse_multi_with_leading_vert(input)?;
+            let guard = if input.peek(syn::Token![if]) {
+                input.parse::<syn::Token![if]>()?;
+                Some(input.parse::<syn::Expr>()?)
+            } else {
+                None
+            };
+            input.parse::<syn::Token![=>]>()?;
+            let body: syn::Expr = input.parse()?;
+            arms.push((pat, guard, body));
+            if input.peek(syn::Token![,]) {
+                input.parse::<syn::Token![,]>()?;
+            }
+        }
+        Ok(DispatchArgs { scrut, arms })
+    }
+}
 impl syn::parse::Parse for MatchesArgs {
     fn parse(input: syn::parse::ParseStream) -> syn::Result<Self> {
         let e: syn::Expr = input.parse()?;
@@ -834,6 +862,23 @@ fn macro_j(m: &syn::Macro, attrs: &[syn::Attribute], cx: &mut Ctx) -> J {
             v.push(("e", expr_j(&ma.e, cx)));
             v.push(("pat", pat_j(&ma.pat, cx)));
             v.push(("guard", ma.guard.as_ref().map(|g| expr_j(g, cx)).unwrap_or(J::Null)));
+            return obj("macro", l, v);
+        }
+    }
+    // 2b. winnow's dispatch!
+    if name == "dispatch" {
+        if let Ok(da) = syn::parse2::<DispatchArgs>(m.tokens.clone()) {
+            v.push(("scrut", expr_j(&da.scrut, cx)));
+            let mut arms = vec![];
+            for (p, g, b) in &da.arms {
+                arms.push(J::Obj(vec![
+                    ("l", line(b)),
+                    ("pat", pat_j(p, cx)),
+                    ("guard", g.as_ref().map(|g| expr_j(g, cx)).unwrap_or(J::Null)),
+                    ("body", expr_j(b, cx)),
+                ]));
+            }
+            v.push(("arms", J::Arr(arms)));
             return obj("macro", l, v);
         }
     }
